@@ -66,9 +66,25 @@ def history_check(ctx, out, ops, impl, what):
                 n += 1
                 if n <= 20:
                     prev = lines[pos - 1] if pos > 0 else "(first operation of the process)"
-                    out.oracle_failures.append({"op": ops[i][:400], "observed": f"{a[:200]}   (directly after `{prev[:200]}` in the same process)", "expected": impl[i][:200] + "   (the answer in the first run)",
+                    out.oracle_failures.append({"op": ops[i], "observed": a[:400], "expected": impl[i], "ops_before": [prev] if pos > 0 else [],
+                                                "note": f"observed directly after `{prev[:200]}` in the same process; expected = the answer of the first run",
                                                 "key": ops[i][:200], "what": f"{what}: the answer to an operation depends on what the process did before (hidden state across calls)"})
     out.count("re-run in look-alike order (history independence)", 2 * len(ops))
+
+
+def release_check(ctx, out, ops, impl, what):
+    """The same operations through the RELEASE build of the harness (no overflow checks, no debug assertions): the answers must be
+    those of the dev build. Catches behaviour that depends on the build profile (wrapping arithmetic, side effects inside
+    debug_assert!). The property module must set NEEDS_RELEASE = True so that the flow builds that harness."""
+    rel = ctx.harness(ops, release=True)
+    n = 0
+    for o, a, r in zip(ops, impl, rel):
+        if r != a and r != "unanswered":
+            n += 1
+            if n <= 20:
+                out.oracle_failures.append({"op": o, "observed": r[:400], "expected": a, "release": True, "note": "observed = release build, expected = dev build", "key": o[:200],
+                                            "what": f"{what}: the release build (no overflow checks / debug assertions) does not answer like the dev build"})
+    out.count("also in the release build", len(ops))
 
 
 class Outcome:
@@ -110,6 +126,12 @@ def replay(ctx, prop, rp, built):
         impl, model = ctx.replay_runner(ops)
     else:
         impl, model = ctx.pair(ops)
+    impl = list(impl)
+    for k, it in enumerate(items):
+        # findings that need more than the operation itself: its predecessor in the same process / the release build
+        if it.get("ops_before") or it.get("release"):
+            lines = list(it.get("ops_before") or []) + [it["op"]]
+            impl[k] = C.run_lines(C.harness_bin(bool(it.get("release"))), lines, shards=1)[-1]
     bad = 0
     for it, a, b in zip(items, impl, model):
         exp = it.get("expected")
